@@ -278,6 +278,14 @@ def check(ctx):
                             if not okp:
                                 o8.fail(P, f'PartBatcher.{e}', e, f'the single input part is in {places or "no place"} after the operation', file=c.mod.path, line=fn.lineno,
                                         path=res.path_lines(g.exit, st))
+                        if src_kind == 'batch':
+                            fwd = [pl for pl in places if pl == '_output' or pl.startswith('batched:')]
+                            if fwd:
+                                o8.fail(P, f'PartBatcher.{e}', e, f'an input batch (length class {fv["#bl"]}) is itself forwarded as if it were a part (it ends up in {fwd}): '
+                                        'the output would contain a batch where a part is expected and the part count would be wrong', file=c.mod.path, line=fn.lineno,
+                                        path=res.path_lines(g.exit, st))
+                            else:
+                                o8.witness((e, tok, 'batch-not-forwarded'))
                     if not inv_(f):
                         ln = dv.last_node(res, g.exit, st, lambda n: n.kind in ('stmt', 'cond', 'return') and n.ast is not None)
                         what = ('parts are left to unpack but no output is waiting and nothing will resume the unpacking' if dv.full(f['_part']) and not dv.full(f['_output'])
